@@ -58,6 +58,10 @@ type rcase struct {
 	Msg2     string  `json:"second_hex,omitempty"`
 	Msg2Text string  `json:"second,omitempty"`
 	Mask     mt.Mask `json:"read_mask"`
+	// Others: read masks of further subscribers pulling CONCURRENTLY from the same resource (Pull sites)
+	Others []mt.Mask `json:"concurrent_masks,omitempty"`
+	// Lossy: backpressure off for every subscriber (events may be merged or dropped)
+	Lossy bool `json:"lossy,omitempty"`
 }
 
 var sites = []string{"FilterClone", "Filter", "Value.Get", "Collection.Get", "Collection.List",
@@ -77,6 +81,12 @@ type rout struct {
 	Ref     string // ... and without a mask
 	Mutated string // non-empty: what was mutated
 	Valid   bool   // ResponseFilter.Validate accepted the mask
+	// EntryMask: with concurrent subscribers, the mask each entry was delivered under
+	EntryMask []mt.Mask
+	// Pool: (lossy) every unprojected value the scenario can deliver; entries are not aligned with Raw
+	Pool []proto.Message
+	// Swapped: a delivered event object changed after it was delivered
+	Swapped string
 }
 
 func msgText(m proto.Message) string {
@@ -121,9 +131,11 @@ func (c rcase) decode2() proto.Message {
 // cannot be recovered by the harness.
 func (c rcase) safe() bool {
 	md := rootByName(c.Root).MD()
-	for _, p := range c.Mask.Paths {
-		if mt.Classify(md, p).ThroughBad {
-			return false
+	for _, m := range append([]mt.Mask{c.Mask}, c.Others...) {
+		for _, p := range m.Paths {
+			if mt.Classify(md, p).ThroughBad {
+				return false
+			}
 		}
 	}
 	return true
@@ -146,13 +158,23 @@ func step(what string, f func() error) {
 	}
 }
 
-// delivered is everything one Pull delivered: the event kinds/ids and the messages in order.
+// delivered is everything one subscriber was delivered: the event kinds/ids and the messages in order
+// (deep copies taken at the moment of delivery), plus the event objects themselves.
 type delivered struct {
 	shape  []string
 	msgs   []proto.Message
 	roles  []string
 	stored proto.Message // the object that was stored when the subscription started
 	before proto.Message // ... and a copy taken at that moment
+	// kept event objects and what they held on delivery: an event must not change afterwards
+	recheck []func() string
+}
+
+func clone(m proto.Message) proto.Message {
+	if m == nil {
+		return nil
+	}
+	return proto.Clone(m)
 }
 
 func nonEmpty(m proto.Message) bool {
@@ -161,38 +183,78 @@ func nonEmpty(m proto.Message) bool {
 	return n > 0
 }
 
-// pullScenario runs the fixed scenario of a Pull site with the given read mask (backpressure on, so
-// every change is delivered, in order) and returns everything that was delivered.
-func (c rcase) pullScenario(mask mt.Mask) delivered {
+func sameMsg(a, b proto.Message) bool {
+	if a == nil || b == nil {
+		return a == nil && b == nil
+	}
+	return proto.Equal(a, b)
+}
+
+// pullScenario runs the fixed scenario of a Pull site with one subscriber per mask, all pulling
+// concurrently from the same resource, and returns what each was delivered.  With backpressure every
+// change is delivered to every subscriber, in order (deterministic); lossy subscribers are drained
+// until the stream has been idle.
+func (c rcase) pullScenario(masks []mt.Mask, lossy bool) []*delivered {
 	r := rootByName(c.Root)
 	msg, msg2 := c.decode(), c.decode2()
-	ropts := []resource.ReadOption{resource.WithBackpressure(true)}
-	if !mask.Nil {
-		ropts = append(ropts, resource.WithReadMask(mask.FM()))
-	}
-	var d delivered
 	ctx, cancel := context.WithCancel(context.Background())
 	defer cancel()
-	fin := make(chan string, 1)
-	addV := func(kind string, v *resource.ValueChange) {
-		role := kind
-		if v.SeedValue {
-			role = "seed"
+	ds := make([]*delivered, len(masks))
+	fins := make([]chan string, len(masks))
+	opsDone := make(chan struct{})
+	optsFor := func(mask mt.Mask) []resource.ReadOption {
+		ropts := []resource.ReadOption{resource.WithBackpressure(!lossy)}
+		if !mask.Nil {
+			ropts = append(ropts, resource.WithReadMask(mask.FM()))
 		}
-		d.shape = append(d.shape, role)
-		d.msgs = append(d.msgs, v.Value)
-		d.roles = append(d.roles, role+"-new")
+		return ropts
 	}
-	collectValues := func(ch <-chan *resource.ValueChange, n int) {
+	collectValues := func(d *delivered, fin chan string, ch <-chan *resource.ValueChange, n int) {
+		handle := func(v *resource.ValueChange) {
+			role := "update"
+			if v.SeedValue {
+				role = "seed"
+			}
+			at := clone(v.Value)
+			d.shape = append(d.shape, role)
+			d.msgs = append(d.msgs, at)
+			d.roles = append(d.roles, role+"-new")
+			d.recheck = append(d.recheck, func() string {
+				if !sameMsg(v.Value, at) {
+					return role + ": " + msgText(at) + " -> " + msgText(v.Value)
+				}
+				return ""
+			})
+		}
+		od := (<-chan struct{})(opsDone)
 		go func() {
-			for i := 0; i < n; i++ {
+			for i := 0; lossy || i < n; i++ {
 				select {
 				case v, ok := <-ch:
 					if !ok {
 						fin <- "stream closed early"
 						return
 					}
-					addV("update", v)
+					handle(v)
+				case <-od:
+					if !lossy {
+						od = nil // deterministic: keep waiting for the remaining events
+						i--
+						continue
+					}
+					for { // lossy: drain until idle
+						select {
+						case v, ok := <-ch:
+							if !ok {
+								fin <- ""
+								return
+							}
+							handle(v)
+						case <-time.After(30 * time.Millisecond):
+							fin <- ""
+							return
+						}
+					}
 				case <-time.After(waitFor):
 					fin <- "timed out waiting for an event"
 					return
@@ -201,7 +263,7 @@ func (c rcase) pullScenario(mask mt.Mask) delivered {
 			fin <- ""
 		}()
 	}
-	collectChanges := func(ch <-chan *resource.CollectionChange, sentinel string) {
+	collectChanges := func(d *delivered, fin chan string, ch <-chan *resource.CollectionChange, sentinel string) {
 		go func() {
 			for {
 				select {
@@ -218,9 +280,16 @@ func (c rcase) pullScenario(mask mt.Mask) delivered {
 					if v.SeedValue {
 						role = "seed"
 					}
+					atNew, atOld := clone(v.NewValue), clone(v.OldValue)
 					d.shape = append(d.shape, role+":"+v.Id)
-					d.msgs = append(d.msgs, v.NewValue, v.OldValue)
+					d.msgs = append(d.msgs, atNew, atOld)
 					d.roles = append(d.roles, role+"-new", role+"-old")
+					d.recheck = append(d.recheck, func() string {
+						if !sameMsg(v.NewValue, atNew) || !sameMsg(v.OldValue, atOld) {
+							return role + ":" + v.Id + ": new " + msgText(atNew) + " -> " + msgText(v.NewValue) + ", old " + msgText(atOld) + " -> " + msgText(v.OldValue)
+						}
+						return ""
+					})
 				case <-time.After(waitFor):
 					fin <- "timed out waiting for an event"
 					return
@@ -229,15 +298,24 @@ func (c rcase) pullScenario(mask mt.Mask) delivered {
 		}()
 	}
 	finish := func() {
-		if e := <-fin; e != "" {
-			panic(e)
+		close(opsDone)
+		for _, fin := range fins {
+			if e := <-fin; e != "" {
+				panic(e)
+			}
 		}
+	}
+	for i := range masks {
+		ds[i] = &delivered{}
+		fins[i] = make(chan string, 1)
 	}
 	switch c.Site {
 	case "Value.Pull":
 		v := resource.NewValue(resource.WithInitialValue(msg))
-		d.stored, d.before = msg, proto.Clone(msg)
-		collectValues(v.Pull(ctx, ropts...), 3)
+		for i, m := range masks {
+			ds[i].stored, ds[i].before = msg, proto.Clone(msg)
+			collectValues(ds[i], fins[i], v.Pull(ctx, optsFor(m)...), 3)
+		}
 		step("Set", func() error { _, err := v.Set(msg2); return err })
 		step("Set", func() error { _, err := v.Set(r.New()); return err })
 		finish()
@@ -247,8 +325,10 @@ func (c rcase) pullScenario(mask mt.Mask) delivered {
 		if err != nil {
 			panic(err)
 		}
-		d.stored, d.before = st, proto.Clone(st)
-		collectValues(col.PullID(ctx, "x", ropts...), 3)
+		for i, m := range masks {
+			ds[i].stored, ds[i].before = st, proto.Clone(st)
+			collectValues(ds[i], fins[i], col.PullID(ctx, "x", optsFor(m)...), 3)
+		}
 		step("Add y", func() error { _, err := col.Add("y", c.decode()); return err })
 		step("Update x", func() error { _, err := col.Update("x", msg2); return err })
 		step("Update y", func() error { _, err := col.Update("y", c.decode2()); return err })
@@ -260,13 +340,16 @@ func (c rcase) pullScenario(mask mt.Mask) delivered {
 		if err != nil {
 			panic(err)
 		}
-		d.stored, d.before = st, proto.Clone(st)
-		if c.Site == "Collection.Pull+Include" {
-			ropts = append(ropts, resource.WithInclude(func(id string, m proto.Message) bool {
-				return id == "zz" || (m != nil && nonEmpty(m))
-			}))
+		for i, m := range masks {
+			ropts := optsFor(m)
+			if c.Site == "Collection.Pull+Include" {
+				ropts = append(ropts, resource.WithInclude(func(id string, m proto.Message) bool {
+					return id == "zz" || (m != nil && nonEmpty(m))
+				}))
+			}
+			ds[i].stored, ds[i].before = st, proto.Clone(st)
+			collectChanges(ds[i], fins[i], col.Pull(ctx, ropts...), "zz")
 		}
-		collectChanges(col.Pull(ctx, ropts...), "zz")
 		// UPDATE (or, with the include set: leave = REMOVE, enter = ADD), ADD, REMOVE by Delete
 		step("Update x", func() error { _, err := col.Update("x", r.New()); return err })
 		step("Update x", func() error { _, err := col.Update("x", msg2); return err })
@@ -279,7 +362,7 @@ func (c rcase) pullScenario(mask mt.Mask) delivered {
 	default:
 		panic("site " + c.Site)
 	}
-	return d
+	return ds
 }
 
 func (c rcase) runCode() rout {
@@ -295,11 +378,39 @@ func (c rcase) runCode() rout {
 	var stored proto.Message // the message that must not change
 	panicked, pmsg := lib.Catch(func() {
 		if isPull(c.Site) {
-			ref := c.pullScenario(mt.NilMask())
-			got := c.pullScenario(c.Mask)
-			out.Ref, out.Shape = strings.Join(ref.shape, ","), strings.Join(got.shape, ",")
-			out.Raw, out.Results, out.Roles = ref.msgs, got.msgs, got.roles
-			stored, before = got.stored, got.before
+			masksAll := append([]mt.Mask{c.Mask}, c.Others...)
+			ref := c.pullScenario([]mt.Mask{mt.NilMask()}, false)[0]
+			got := c.pullScenario(masksAll, c.Lossy)
+			out.Ref = strings.Join(ref.shape, ",")
+			var shapes []string
+			for i, d := range got {
+				shapes = append(shapes, strings.Join(d.shape, ","))
+				out.Results = append(out.Results, d.msgs...)
+				out.Roles = append(out.Roles, d.roles...)
+				for range d.msgs {
+					out.EntryMask = append(out.EntryMask, masksAll[i])
+				}
+				if !c.Lossy {
+					out.Raw = append(out.Raw, ref.msgs...)
+				}
+				for _, f := range d.recheck {
+					if e := f(); e != "" && out.Swapped == "" {
+						out.Swapped = fmt.Sprintf("subscriber %d (mask %s) %s", i, masksAll[i].Enc(), e)
+					}
+				}
+			}
+			out.Shape = strings.Join(shapes, " ; ")
+			if len(got) > 1 {
+				refs := make([]string, len(got))
+				for i := range refs {
+					refs[i] = out.Ref
+				}
+				out.Ref = strings.Join(refs, " ; ")
+			}
+			if c.Lossy {
+				out.Pool = append([]proto.Message{nil}, ref.msgs...)
+			}
+			stored, before = got[0].stored, got[0].before
 			return
 		}
 		out.Raw, out.Roles = []proto.Message{proto.Clone(msg)}, []string{"result"}
@@ -442,8 +553,48 @@ func (c rcase) monitor(mon *lib.Monitor, out rout) {
 	if out.Mutated != "" {
 		mon.Violate(site+"/mutated", out.Mutated, c, "unchanged", "changed")
 	}
+	for _, m := range c.Others {
+		for _, p := range m.Paths {
+			if pi := mt.Classify(md, p); pi.Unknown || pi.ThroughBad {
+				sensible = false
+			}
+		}
+	}
 	if !sensible {
 		return // projection is specified for masks whose paths exist and continue through messages only
+	}
+	if len(c.Others) > 0 {
+		site += "/concurrent"
+	}
+	if out.Swapped != "" {
+		mon.Violate(site+"/event-changed-after-delivery", "a delivered change object was altered after it had been delivered: "+out.Swapped, c, "unchanged", "changed")
+	}
+	maskOf := func(i int) mt.Mask {
+		if i < len(out.EntryMask) {
+			return out.EntryMask[i]
+		}
+		return c.Mask
+	}
+	if c.Lossy {
+		// lossy subscribers may skip or merge events, but whatever they deliver is the projection of
+		// some value the scenario stores
+		for i, got := range out.Results {
+			ok := false
+			for _, raw := range out.Pool {
+				want := "nil"
+				if raw != nil {
+					want = mt.CanonMsg(specProject(raw, maskOf(i)))
+				}
+				if msgText(got) == want {
+					ok = true
+					break
+				}
+			}
+			if !ok {
+				mon.Violate(site+"/lossy/projection", "a value delivered by a lossy subscription is not the projection (onto that subscriber's mask "+maskOf(i).Enc()+") of any stored value", c, "projection of a stored value", msgText(got))
+			}
+		}
+		return
 	}
 	if isPull(c.Site) && out.Shape != out.Ref {
 		mon.Violate(site+"/events-differ", "a read mask changed which events the subscription delivers", c, out.Ref, out.Shape)
@@ -456,14 +607,14 @@ func (c rcase) monitor(mon *lib.Monitor, out rout) {
 	for i, got := range out.Results {
 		want := "nil"
 		if out.Raw[i] != nil {
-			want = mt.CanonMsg(specProject(out.Raw[i], c.Mask))
+			want = mt.CanonMsg(specProject(out.Raw[i], maskOf(i)))
 		}
 		if g := msgText(got); g != want {
 			sig := site + "/projection/" + out.Roles[i]
-			if prefixOverlap(c.Mask.Paths) {
+			if prefixOverlap(maskOf(i).Paths) {
 				sig = site + "/parent-and-child-paths/projection"
 			}
-			mon.Violate(sig, "the "+out.Roles[i]+" message of the read is not the projection of the stored message onto the mask", c, want, g)
+			mon.Violate(sig, "the "+out.Roles[i]+" message of the read is not the projection of the stored message onto the subscriber's mask "+maskOf(i).Enc(), c, want, g)
 		}
 	}
 }
@@ -511,11 +662,29 @@ func genCase(g *mt.Gen, site string) rcase {
 	if repPath != "" && !c.Mask.Nil {
 		c.Mask.Paths = append(c.Mask.Paths, repPath)
 	}
+	if isPull(site) && g.R.Intn(2) == 0 {
+		// one or two more subscribers pulling concurrently with their own masks
+		for n := 1 + g.R.Intn(2); n > 0; n-- {
+			switch g.R.Intn(5) {
+			case 0:
+				c.Others = append(c.Others, mt.NilMask())
+			case 1:
+				c.Others = append(c.Others, c.Mask) // the same mask contents
+			default:
+				c.Others = append(c.Others, g.MaskFrom(focus, mt.PathOpts{Corrupt: 0}))
+			}
+		}
+		c.Lossy = g.R.Intn(6) == 0
+	}
 	return c
 }
 
 func (c rcase) key() string {
-	return strings.Join([]string{c.Root, c.Site, c.Mask.Enc(), c.MsgText, c.Msg2Text}, " ")
+	k := strings.Join([]string{c.Root, c.Site, c.Mask.Enc(), c.MsgText, c.Msg2Text, fmt.Sprint(c.Lossy)}, " ")
+	for _, m := range c.Others {
+		k += " +" + m.Enc()
+	}
+	return k
 }
 
 func runCases(cases []rcase, tie, spec *lib.Tie, mon *lib.Monitor, drv *lib.Driver) {
@@ -530,9 +699,13 @@ func runCases(cases []rcase, tie, spec *lib.Tie, mon *lib.Monitor, drv *lib.Driv
 			lines = append(lines, "rfilter "+c.Mask.Enc()+" "+c.MsgText)
 			continue
 		}
-		for _, raw := range outs[i].Raw {
+		for j, raw := range outs[i].Raw {
 			if raw != nil {
-				lines = append(lines, "rfilter "+c.Mask.Enc()+" "+mt.CanonMsg(raw))
+				m := c.Mask
+				if j < len(outs[i].EntryMask) {
+					m = outs[i].EntryMask[j]
+				}
+				lines = append(lines, "rfilter "+m.Enc()+" "+mt.CanonMsg(raw))
 			}
 		}
 	}
@@ -568,6 +741,16 @@ func runCases(cases []rcase, tie, spec *lib.Tie, mon *lib.Monitor, drv *lib.Driv
 			model = strings.Join(xs, " ")
 		}
 		nontrivial := !c.Mask.Nil && len(c.Mask.Paths) > 0
+		if c.Lossy && out.Panic == "" {
+			// which events a lossy subscriber sees is not determined: monitor only
+			tie.Count("lossy:monitor-only")
+			mon.Eval(c.key(), nontrivial, nil)
+			c.monitor(mon, out)
+			continue
+		}
+		if len(c.Others) > 0 {
+			tie.Count(fmt.Sprintf("concurrent-subscribers:%d@%s", len(c.Others)+1, c.Site))
+		}
 		tie.Record(c.key(), nontrivial, c, model+" valid="+mv, out.text()+" valid="+fmt.Sprint(out.Valid))
 		tie.Count("site:" + c.Site)
 		tie.Count("root:" + c.Root)
@@ -643,6 +826,22 @@ func seededCases() []rcase {
 				}
 			}
 			out = append(out, c)
+		}
+		if isPull(site) {
+			// concurrent subscribers: no mask / disjoint / overlapping / nested, backpressure on and off
+			P := func(ps ...string) mt.Mask { return mt.Mask{Paths: ps} }
+			for _, ms := range [][]mt.Mask{
+				{mt.NilMask(), P("default_int32")},
+				{P("default_int32"), P("default_foreign_message")},
+				{P("default_int32", "default_foreign_message"), P("default_foreign_message", "default_string")},
+				{P("default_foreign_message.c"), P("default_foreign_message.d"), mt.NilMask()},
+				{P("repeated_foreign_message.c"), P("repeated_foreign_message"), P()},
+			} {
+				for _, lossy := range []bool{false, true} {
+					out = append(out, rcase{Root: "TestAllTypes", Site: site, Msg: mt.EncodeMsg(msg), MsgText: mt.CanonMsg(msg),
+						Msg2: mt.EncodeMsg(msg2), Msg2Text: mt.CanonMsg(msg2), Mask: ms[0], Others: ms[1:], Lossy: lossy})
+				}
+			}
 		}
 	}
 	return out
@@ -720,11 +919,11 @@ func main() {
 		lib.Fatal(fmt.Errorf("driver rejected the schema: %q %v", ans, err))
 	}
 	tie := res.Tie("reads", "K1",
-		"random (stored message, read mask[, second message]) cases over TestAllTypes and three trait messages at ResponseFilter.FilterClone/Filter/Validate, Value.Get, Collection.Get/List and four subscription scenarios run with backpressure (deterministic): Value.Pull (seed + 2 updates), Collection.PullID (seed + 2 updates, other ids interleaved), Collection.Pull (seed, UPDATE new+old, ADD, REMOVE by Delete, old and new values of every event) and Collection.Pull with WithInclude (UPDATE that leaves the include set = REMOVE old value, UPDATE that enters = ADD, Delete); every scenario runs once without and once with the mask, and EVERY delivered message (nil ones included) is compared with the Lean model's filter of the unmasked message; event kinds/ids must be equal. Pull scenarios use only masks that cannot panic (the filter runs on another goroutine). Masks from the path tree with parents+children, duplicates, nil/empty, through repeated messages, and (half) corrupted: unknown segment, continuation through scalar / repeated / map, empty segments; at every site a fixed list of mask kinds (nil, empty, single, nested, repeated-message, parent+child, unknown) runs first; non-trivial = non-empty mask; distinct by (site, mask, messages)")
+		"random (stored message, read mask[, second message]) cases over TestAllTypes and three trait messages at ResponseFilter.FilterClone/Filter/Validate, Value.Get, Collection.Get/List and four subscription scenarios (with backpressure: deterministic; half of them with 2-3 CONCURRENT subscribers on the same resource, each with its own mask — none, equal, disjoint, overlapping, nested — every subscriber's stream compared under ITS mask; a sixth of those lossy, which are monitor-only): Value.Pull (seed + 2 updates), Collection.PullID (seed + 2 updates, other ids interleaved), Collection.Pull (seed, UPDATE new+old, ADD, REMOVE by Delete, old and new values of every event) and Collection.Pull with WithInclude (UPDATE that leaves the include set = REMOVE old value, UPDATE that enters = ADD, Delete); every scenario runs once without and once with the mask, and EVERY delivered message (nil ones included) is compared with the Lean model's filter of the unmasked message; event kinds/ids must be equal. Pull scenarios use only masks that cannot panic (the filter runs on another goroutine). Masks from the path tree with parents+children, duplicates, nil/empty, through repeated messages, and (half) corrupted: unknown segment, continuation through scalar / repeated / map, empty segments; at every site a fixed list of mask kinds (nil, empty, single, nested, repeated-message, parent+child, unknown) runs first; non-trivial = non-empty mask; distinct by (site, mask, messages)")
 	spec := res.Tie("projection-oracle", "K1",
 		"the protoreflect projection used as the monitor's oracle against the Lean specification `project` on the same (message, mask) pairs")
 	mon := res.Monitor("read-semantics",
-		"for every case: every returned / delivered message (seed, ADD/UPDATE new and old values, REMOVE old values; nil stays nil) = independent projection of the stored message onto the mask's path set (masks whose paths exist and continue only through messages; nil = everything, empty = nothing); the stored / passed-in message deep-equals its copy taken before the read; no panic for any mask; Validate rejects exactly the masks with an unknown path or a continuation through a scalar, map or repeated field")
+		"for every case: every returned / delivered message (seed, ADD/UPDATE new and old values, REMOVE old values; nil stays nil; with concurrent subscribers each under its own mask; lossy: the projection of some stored value) = independent projection of the stored message onto the mask's path set (masks whose paths exist and continue only through messages; nil = everything, empty = nothing); the stored / passed-in message deep-equals its copy taken before the read; a delivered change object is not altered after delivery (deep copy at delivery re-compared at the end); no panic for any mask; Validate rejects exactly the masks with an unknown path or a continuation through a scalar, map or repeated field")
 	g := &mt.Gen{R: lib.NewRand(f.Seed)}
 	runCases(seededCases(), tie, spec, mon, drv)
 	n := f.N(6000, 120000)
@@ -737,7 +936,7 @@ func main() {
 		c := genCase(g, site)
 		if isPull(site) && !c.safe() {
 			c.Site = "FilterClone"
-			c.Msg2, c.Msg2Text = "", ""
+			c.Msg2, c.Msg2Text, c.Others, c.Lossy = "", "", nil, false
 		}
 		cases = append(cases, c)
 		if len(cases) == 1000 || i == n-1 {
